@@ -13,7 +13,7 @@ theorem generation_ok : generationFailed = false := by rfl
 only the two that hang off transient fields (`Data.OpsMap`, `Data.SQLite`). -/
 theorem unlistedStructs_expected : unlistedStructs = ["Op", "SQLiteWrapper"] := by rfl
 
-/-- the 66 command types of the state machine's dispatch table (the harness must generate
+/-- the 65 command types of the state machine's dispatch table (the harness must generate
 every one of them: `kinds-exercised` in the evidence). -/
 theorem commandTypes_expected : commandTypes = ["CreateDatabaseCommand", "DropDatabaseCommand", "CreateRetentionPolicyCommand", "DropRetentionPolicyCommand", "SetDefaultRetentionPolicyCommand", "UpdateRetentionPolicyCommand", "CreateShardGroupCommand", "DeleteShardGroupCommand", "CreateSubscriptionCommand", "DropSubscriptionCommand", "CreateUserCommand", "DropUserCommand", "UpdateUserCommand", "SetPrivilegeCommand", "SetAdminPrivilegeCommand", "SetDataCommand", "CreateMetaNodeCommand", "DeleteMetaNodeCommand", "SetMetaNodeCommand", "CreateDataNodeCommand", "CreateSqlNodeCommand", "DeleteDataNodeCommand", "MarkDatabaseDeleteCommand", "MarkRetentionPolicyDeleteCommand", "CreateMeasurementCommand", "ReShardingCommand", "UpdateSchemaCommand", "AlterShardKeyCmd", "PruneGroupsCommand", "MarkMeasurementDeleteCommand", "DropMeasurementCommand", "DeleteIndexGroupCommand", "UpdateShardInfoTierCommand", "UpdateNodeStatusCommand", "UpdateSqlNodeStatusCommand", "CreateEventCommand", "UpdateEventCommand", "UpdatePtInfoCommand", "RemoveEventCommand", "CreateDownSamplePolicyCommand", "DropDownSamplePolicyCommand", "CreateDbPtViewCommand", "UpdateShardDownSampleInfoCommand", "MarkTakeoverCommand", "MarkBalancerCommand", "CreateStreamCommand", "DropStreamCommand", "VerifyDataNodeCommand", "ExpandGroupsCommand", "UpdatePtVersionCommand", "RegisterQueryIDOffsetCommand", "CreateContinuousQueryCommand", "ContinuousQueryReportCommand", "DropContinuousQueryCommand", "NotifyCQLeaseChangedCommand", "SetNodeSegregateStatusCommand", "RemoveNodeCommand", "UpdateReplicationCommand", "UpdateMeasurementCommand", "UpdateNodeTmpIndexCommand", "InsertFilesCommand", "UpdateMetaNodeStatusCommand", "UpdateIndexInfoTierCommand", "ReplaceMergeShardsCommand", "RecoverMetaData"] := by rfl
 
